@@ -542,3 +542,5 @@ pub mod core;
 pub mod generic;
 #[cfg(feature = "batteries_included")]
 pub mod prelude;
+#[cfg(rusty_paseto_verif)]
+pub mod verif;
